@@ -5,13 +5,15 @@
    layer, pkg/edition/java/proxy/bungee.go (bungeeServer.BroadcastPluginMessage) with
    server.go BroadcastPluginMessage and player.go connectedPlayer.SendPluginMessage.
 
-   [model F] is one transcription parametrised by five "repaired" flags, one per recorded finding:
-   [impl_bungee] = model with no flag set = the code as it exists; [spec_bungee] = model with all flags
-   set = BungeeCord's semantics as ported by Velocity (BungeeCordMessageResponder).  The flags make a
-   partially repaired tree recognisable by the judge.  Executable definitions only.
+   [model F] is one transcription parametrised by five "repaired" flags, one per recorded finding of the
+   dispatch layer.  Findings 1 and 6 have been repaired in the code (commits 8f84347, 37918de), so
+   [impl_bungee] = model current = the code as it exists (flags 1 and 6 set, 2/3/4 open);
+   [spec_bungee] = model all_fixed = BungeeCord's semantics as ported by Velocity
+   (BungeeCordMessageResponder); [model none_fixed] is the pre-fix variant the _refuted lemmas of the
+   repaired findings talk about.  Executable definitions only.
 
-   Modelling notes.  DataInput.readUnsignedShort is modelled with util.ReadUint16's behaviour in BOTH
-   models (a single trailing byte b reads as b*256 without error: that is C03's subject).  The text
+   Modelling notes.  Reads are strict like DataInput (and like util.ReadUint16/ReadUTF since they use
+   io.ReadFull): a truncated length prefix or body is an error and the request is ignored.  The text
    codecs (legacy / JSON component) are external: the case supplies an oracle table text |-> decoded
    plain text or failure.  Player and server lookups fold ASCII case like Proxy.PlayerByName/Server. *)
 From Coq Require Import List NArith Bool String.
@@ -56,9 +58,8 @@ Inductive effect :=
 (* ---------- DataInput / DataOutput primitives ---------- *)
 Definition read_u16 (bs : bytes) : option (N * bytes) :=
   match bs with
-  | [] => None
-  | [b] => Some (b * 256, [])               (* util.ReadUint16 accepts a short read, see header *)
   | a :: b :: r => Some (a * 256 + b, r)
+  | _ => None                               (* io.ReadFull: EOF / unexpected EOF *)
   end.
 Definition read_utf (bs : bytes) : option (bytes * bytes) :=
   match read_u16 bs with
@@ -142,6 +143,7 @@ Definition s_bungeecord_main : bytes := tx "bungeecord:main".
 Record flags := mkF { f1 : bool; f2 : bool; f3 : bool; f4 : bool; f6 : bool }.
 Definition none_fixed : flags := mkF false false false false false.
 Definition all_fixed : flags := mkF true true true true true.
+Definition current : flags := mkF true false false false true.   (* the code today: 1 and 6 repaired *)
 
 (* sendServerResponse on the connection of [owner]: nothing for an empty payload or without a server *)
 Definition respond (owner : player) (data : bytes) : list effect :=
@@ -287,7 +289,7 @@ Definition model (F : flags) (st : pstate) (req : player) (oracle : list (bytes 
     end
   else (false, []).
 
-Definition impl_bungee := model none_fixed.
+Definition impl_bungee := model current.
 Definition spec_bungee := model all_fixed.
 
 (* ---------- triggers of the recorded findings (on the parsed request) ---------- *)
